@@ -323,6 +323,8 @@ def run(ctx: Ctx) -> None:
     _memo.rule_memo_sound(ctx, ['graphiq/circuit/circuit_dag.py', 'graphiq/circuit/circuit_base.py'])
     _memo.rule_falsy_zero(ctx, ['graphiq/circuit/circuit_dag.py', 'graphiq/circuit/circuit_base.py'])
     _memo.rule_arg_names(ctx, ['graphiq/circuit/circuit_dag.py', 'graphiq/circuit/circuit_base.py'])
+    _memo.rule_fixed_width(ctx, ['graphiq/circuit/circuit_dag.py', 'graphiq/circuit/circuit_base.py'])
+    _memo.rule_paste_incomplete(ctx, ['graphiq/circuit/circuit_dag.py', 'graphiq/circuit/circuit_base.py'])
     rule_own_dag(ctx)
     rule_nodekeys(ctx)
     rule_own_registers(ctx)
